@@ -1,14 +1,16 @@
 import ObiVerif.Lemmas.TagLookup
 import ObiVerif.Lemmas.TaxExample
+import ObiVerif.Lemmas.QGram
 /-!
 # C15 — assignment search is lossless: k-mer prefilters never change the answer (property theorems)
 
 All theorems are about the loops of `Model/Tag.lean` (the code **as repaired** by the three C15 patches) for
 arbitrary candidate data (any number of references, any lengths, shared 4-mer counts, distances), any candidate
-order that is sorted by non-increasing shared count, any well-formed taxonomy.  The q-gram lemma (q = 4) is an
-explicit hypothesis (`QGramBound`), validated by the harness on every pair of sequences it meets; the exactness
-of the bounded LCS kernels is built into the reading of the kernels in the model (see its header) and is
-validated the same way.
+order that is sorted by non-increasing shared count, any well-formed taxonomy.  In §1–§3 the q-gram lemma
+(q = 4) is an explicit hypothesis on the abstract candidate data (`QGramBound`); §4 PROVES it for candidates made
+of actual sequences over `a c g t` of at most 65538 letters (`Lemmas/QGram.lean`: `qgram4`, `qgramBound_acgt`) and
+restates the pruning theorems without the hypothesis (`…_acgt`).  The exactness of the bounded LCS kernels is
+built into the reading of the kernels in the model (see its header) and is validated by the harness.
 -/
 namespace ObiVerif.Props.C15
 open ObiVerif.Tag ObiVerif.Tax
@@ -254,5 +256,129 @@ def exRows : Nat → Nat → Cand
 example : identify exT 6 (findClosests .tag1 10 exQ [0, 1, 2])
     (fun b => indexSequence exT 6 [3, 4, 5] b 10 (exRows b) (if b = 1 then [1, 0, 2] else [0, 1, 2])) = .ok 2 0 2 := by
   decide
+
+/-! ## 4. the q-gram lemma is a theorem: the pruning theorems without the hypothesis `QGramBound`
+
+`Lemmas/QGram.lean` proves the q-gram lemma (q = 4) on the model's own definitions.  Here the candidate data
+are no longer abstract: `candOf q r` is what the loops see of the reference `r` when the scanned sequence is
+`q` (`Common4Mer` of the two `Count4Mer` tables, `FastLCSScore(q, r, -1)` = `lcsDP samenuc`, C09).  The only
+hypotheses left on the sequences: letters `a c g t` (with IUPAC codes the bound is false: `Encode4mer` counts
+them as `a`, `_samenuc` matches them) and at most 65538 letters (`Table4mer` has 16-bit cells: beyond, the bound
+is false, `qgram4_false_beyond_uint16`). -/
+
+open ObiVerif.QGram ObiVerif.Kmer ObiVerif.Lcs
+
+/-- **q-gram lemma (q = 4)** on `Common4Mer` and the LCS distance `alilength - lcs` of the code: two words over
+`a c g t` (at most 65538 letters) within `d` differences share at least `max(|q|,|r|) - 3 - 4·d` 4-mers -/
+theorem qgram4_acgt (q r : Bytes) (hq : IsACGT q) (hr : IsACGT r) (hlq : q.length ≤ 65538) (hlr : r.length ≤ 65538)
+    (d : Nat) (hd : (candOf q r).dist ≤ d) : max q.length r.length - 3 - 4 * d ≤ common4 q r :=
+  qgram4_lcsDP hq hr hlq hlr d hd
+
+/-- the same for ANY alignment of the two words (`l` columns, `s` matches), not only the optimal one -/
+theorem qgram4_acgt_ali (q r : Bytes) (hq : IsACGT q) (hr : IsACGT r) (hlq : q.length ≤ 65538) (hlr : r.length ≤ 65538)
+    (s l : Nat) (h : Ali samenuc q r s l) : max q.length r.length - 3 - 4 * (l - s) ≤ common4 q r :=
+  qgram4_common4 h hq hr hlq hlr _ (Nat.le_refl _)
+
+set_option maxRecDepth 4000 in
+/-- (test) the bound is tight: `acgtacgta` / `acgttcgta`, one substitution in the middle (9 columns, 8 matches):
+`9 - 3 - 4·1 = 2` shared 4-mers (`acgt`, `cgta`); the matrix of the driver finds `(8, 9)`, slack 0 -/
+example : Ali samenuc [97,99,103,116,97,99,103,116,97] [97,99,103,116,116,99,103,116,97] 8 9 ∧
+    common4 [97,99,103,116,97,99,103,116,97] [97,99,103,116,116,99,103,116,97] = 2 ∧
+    lcsPair [97,99,103,116,97,99,103,116,97] [97,99,103,116,116,99,103,116,97] = (8, 9) ∧
+    slack [97,99,103,116,97,99,103,116,97] [97,99,103,116,116,99,103,116,97] = 0 := by
+  have hc : common4 [97,99,103,116,97,99,103,116,97] [97,99,103,116,116,99,103,116,97] = 2 := by
+    rw [common4_eq_inter _ _ (by decide) (by decide)]; decide
+  have hp : lcsPair [97,99,103,116,97,99,103,116,97] [97,99,103,116,116,99,103,116,97] = (8, 9) := by decide
+  refine ⟨?_, hc, hp, ?_⟩
+  · exact .pair 97 97 (.pair 99 99 (.pair 103 103 (.pair 116 116 (.pair 97 116
+      (.pair 99 99 (.pair 103 103 (.pair 116 116 (.pair 97 97 .nil))))))))
+  · unfold slack
+    rw [hc, hp]
+    decide
+
+/-- **lossless search without the q-gram hypothesis** (obitag and obitag2): for a query `q` and references
+`refs i` over `a c g t` of at most 65538 letters, scanned by non-increasing number of shared 4-mers,
+`FindClosests` returns the brute-force answer (least LCS distance over ALL the references, all the references at
+that distance, each once, in scan order) -/
+theorem findClosests_lossless_acgt (v : Variant) (q : Bytes) (refs : Nat → Bytes) (o : List Nat)
+    (hq : IsACGT q) (hlq : q.length ≤ 65538)
+    (hr : ∀ i ∈ o, IsACGT (refs i) ∧ (refs i).length ≤ 65538)
+    (hs : SortedByCw (fun i => candOf q (refs i)) o) (hne : o ≠ []) :
+    ∃ m idxs bestId bestmatch,
+      findClosests v q.length (fun i => candOf q (refs i)) o = .ok m bestId bestmatch idxs ∧
+      bruteClosests (fun i => candOf q (refs i)) o = some (m, idxs) :=
+  findClosests_lossless v q.length _ o hs (qgramBound_acgt q refs o hq hlq hr) hne
+
+/-- references of the non-vacuity example: `acgtacgtac`, the same with one substitution, an unrelated word -/
+def exRefs : Nat → Bytes
+  | 0 => [97,99,103,116,97,99,103,116,97,99]
+  | 1 => [97,99,103,116,97,99,103,116,116,99]
+  | _ => [116,116,116,116,116,116,116,116,116,116]
+
+set_option maxRecDepth 4000 in
+/-- non-vacuity of `findClosests_lossless_acgt`: the hypotheses hold for the query `exRefs 0` against the three
+references (shared 4-mers 7, 5, 0) -/
+example : IsACGT (exRefs 0) ∧ (exRefs 0).length ≤ 65538 ∧
+    (∀ i ∈ [0, 1, 2], IsACGT (exRefs i) ∧ (exRefs i).length ≤ 65538) ∧
+    SortedByCw (fun i => candOf (exRefs 0) (exRefs i)) [0, 1, 2] ∧ [0, 1, 2] ≠ [] ∧
+    (candOf (exRefs 0) (exRefs 0)).cw = 7 ∧ (candOf (exRefs 0) (exRefs 1)).cw = 5 ∧
+    (candOf (exRefs 0) (exRefs 2)).cw = 0 := by
+  have h0 : common4 (exRefs 0) (exRefs 0) = 7 := by
+    rw [common4_eq_inter _ _ (by decide) (by decide)]; decide
+  have h1 : common4 (exRefs 0) (exRefs 1) = 5 := by
+    rw [common4_eq_inter _ _ (by decide) (by decide)]; decide
+  have h2 : common4 (exRefs 0) (exRefs 2) = 0 := by
+    rw [common4_eq_inter _ _ (by decide) (by decide)]; decide
+  refine ⟨by decide, by decide, by decide, ?_, by decide, h0, h1, h2⟩
+  simp [SortedByCw, candOf, h0, h1, h2]
+
+/-- **the index is the LCA table, without the q-gram hypothesis**: references over `a c g t` of at most 65538
+letters; the indexed sequence is the reference `seqidx` (at distance 0 of itself: no hypothesis either) -/
+theorem index_is_lca_acgt {t : Taxo} {root : Nat} {depth : Nat → Nat} {fuel : Nat}
+    (wf : WF t root depth) (hf : FuelOK t fuel)
+    (taxids : List Nat) (htax : ∀ x ∈ taxids, ∃ n, t.node x = some n)
+    (refs : Nat → Bytes) (seqidx : Nat) (hidx : seqidx < taxids.length) (ow : List Nat)
+    (hperm : ∀ j, j ∈ ow ↔ j < taxids.length)
+    (hr : ∀ j, j < taxids.length → IsACGT (refs j) ∧ (refs j).length ≤ 65538)
+    (hs : SortedByCw (fun j => candOf (refs seqidx) (refs j)) ow) :
+    ∃ idx, indexSequence t fuel taxids seqidx (refs seqidx).length (fun j => candOf (refs seqidx) (refs j)) ow = .ok idx ∧
+      ∀ e ∈ idx, ∀ x, Anc t x e.2 ↔
+        ∀ j, j < taxids.length → (candOf (refs seqidx) (refs j)).dist ≤ e.1 → Anc t x (taxids.getD j 0) := by
+  have hself := candOf_self_dist (refs seqidx) (hr seqidx hidx).1
+  exact index_is_lca wf hf taxids htax seqidx _ hidx _ ow hperm hs
+    (qgramBound_acgt _ refs ow (hr seqidx hidx).1 (hr seqidx hidx).2 (fun j hj => hr j ((hperm j).1 hj))) hself
+
+/-- **what `Identify` reads in the index is the LCA, without the q-gram hypothesis** -/
+theorem index_lookup_is_lca_acgt {t : Taxo} {root : Nat} {depth : Nat → Nat} {fuel : Nat}
+    (wf : WF t root depth) (hf : FuelOK t fuel)
+    (taxids : List Nat) (htax : ∀ x ∈ taxids, ∃ n, t.node x = some n)
+    (refs : Nat → Bytes) (seqidx : Nat) (hidx : seqidx < taxids.length) (ow : List Nat)
+    (hperm : ∀ j, j ∈ ow ↔ j < taxids.length)
+    (hr : ∀ j, j < taxids.length → IsACGT (refs j) ∧ (refs j).length ≤ 65538)
+    (hs : SortedByCw (fun j => candOf (refs seqidx) (refs j)) ow) :
+    ∃ idx, indexSequence t fuel taxids seqidx (refs seqidx).length (fun j => candOf (refs seqidx) (refs j)) ow = .ok idx ∧
+      ∀ D a, D < (refs seqidx).length → lookDown idx D = some a →
+        selectEntry idx D = .ok a ∧
+        ∀ x, Anc t x a ↔ ∀ j, j < taxids.length → (candOf (refs seqidx) (refs j)).dist ≤ D → Anc t x (taxids.getD j 0) := by
+  have hself := candOf_self_dist (refs seqidx) (hr seqidx hidx).1
+  exact index_lookup_is_lca wf hf taxids htax seqidx _ hidx _ ow hperm hs
+    (qgramBound_acgt _ refs ow (hr seqidx hidx).1 (hr seqidx hidx).2 (fun j hj => hr j ((hperm j).1 hj))) hself
+
+/-- **the assigned taxon is an ancestor-or-self of the taxon of EVERY reference at minimal LCS distance from the
+query, without the q-gram hypothesis** (query and references over `a c g t`, at most 65538 letters) -/
+theorem assigned_is_ancestor_of_every_best_acgt {t : Taxo} {depth : Nat → Nat} {fuel : Nat}
+    (wf : WF t 1 depth) (hf : FuelOK t fuel)
+    (taxids : List Nat) (htax : ∀ x ∈ taxids, ∃ n, t.node x = some n)
+    (v : Variant) (q : Bytes) (refs : Nat → Bytes) (o : List Nat)
+    (hperm : ∀ j, j ∈ o ↔ j < taxids.length)
+    (hq : IsACGT q) (hlq : q.length ≤ 65538)
+    (hr : ∀ j, j < taxids.length → IsACGT (refs j) ∧ (refs j).length ≤ 65538)
+    (hs : SortedByCw (fun i => candOf q (refs i)) o)
+    (lens : Nat → Nat) (cs : Nat → Nat → Cand) (ows : Nat → List Nat) (z bm n : Nat)
+    (h : identify t fuel (findClosests v q.length (fun i => candOf q (refs i)) o)
+          (fun b => indexSequence t fuel taxids b (lens b) (cs b) (ows b)) = .ok z bm n) :
+    ∀ i ∈ o, (∀ j ∈ o, (candOf q (refs i)).dist ≤ (candOf q (refs j)).dist) → Anc t z (taxids.getD i 0) :=
+  assigned_is_ancestor_of_every_best wf hf taxids htax v q.length _ o hperm hs
+    (qgramBound_acgt q refs o hq hlq (fun j hj => hr j ((hperm j).1 hj))) lens cs ows z bm n h
 
 end ObiVerif.Props.C15
